@@ -96,13 +96,13 @@ Print Assumptions C03_source_invoke_is_model.
 (** * Non-vacuity: caller under foreach + while; callee loops and wipes the counters *)
 Definition P (tag : string) (fe : option val) (inn : dict) (b : body) (nm : string) : step :=
   mkstep nm b (Some ((VStr "ptag", VStr tag) :: inn)) fe None None
-         (VBool true) (VBool false) (VBool false) None (Some (1, 5)%Z).
+         (VBool true) (VBool false) (VBool false) None (Some (1, 5)%Z) None.
 Definition lib3 : library :=
   [("main", [("steps", Some [
       mkstep "pypyr.steps.call" BCall (Some [(VStr "call", VStr "callee")])
              (Some (VList [VStr "a"; VStr "b"]))
              (Some (mkw (Some (VInt 2)) None (VInt 0) (VBool false))) None
-             (VBool true) (VBool false) (VBool false) None (Some (1, 5)%Z);
+             (VBool true) (VBool false) (VBool false) None (Some (1, 5)%Z) None;
       P "after" None [] BProbe "vprobe"]);
     ("callee", Some [
       P "in-callee" (Some (VList [VInt 7; VInt 8])) [] BProbe "vprobe";
